@@ -10,7 +10,7 @@ FAM = Family('threads', 'threads.cpp', noinline=NOINLINE)
 def harnesses(tier):
     g, info = core.translate(FAM, [TS], [r'std::unordered_map<.*>::(operator\[\]|erase)'], tag='K_storage', cuts=[r'std::unordered_map<.*>::(unordered_map|~unordered_map)'])
     txt = core.fread(g)
-    m = re.search(r'^extern (struct \w+|\w+) (g__ZZN10chaiscript6detail9threading14Thread_Storage\w*8next_keyEvE10s_last_key);', txt, re.M)
+    m = re.search(r'^extern (struct \w+|\w+) (g__ZZN10chaiscript6detail9threading14Thread_Storage\w*8next_keyEvE10s_last_key)(\[VERIF_NTHREADS\])?;', txt, re.M)
     counter = m.group(2) if m else 'COUNTER_NOT_FOUND'
     d = {'TS_DTOR': core.csym(FAM, TS + r'~Thread_Storage\(\)'), 'TS_DEREF': core.csym(FAM, TS + r'operator\*\(\)$'),
          'TS_ARROW': core.csym(FAM, TS + r'operator->\(\)$'), 'TS_CDEREF': core.csym(FAM, TS + r'operator\*\(\) const'), 'TS_CARROW': core.csym(FAM, TS + r'operator->\(\) const'),
@@ -18,16 +18,18 @@ def harnesses(tier):
          'UMAP_ERASE': None,
          }
     ct = core.find_symbols(FAM, TS + r'Thread_Storage\(\)')
-    if ct and m: d['TS_CTOR'] = 'F_' + core.cname(ct[0][0]); d['COUNTER'] = '(*(uint64_t*)&%s)' % counter
+    if ct and m:
+        d['TS_CTOR'] = 'F_' + core.cname(ct[0][0]); d['COUNTER'] = '(*(uint64_t*)&%s)' % counter
+        tl = bool(m.group(3)); d['COUNTER_IS_TL'] = int(tl); d['COUNTER_T(t)'] = ('(*(uint64_t*)&%s[t])' % counter) if tl else ('(*(uint64_t*)&%s)' % counter)
     um = r'std::unordered_map<[^,]*, chaiscript::detail::Stack_Holder.*::'
     ix = core.find_symbols(FAM, um + r'operator\[\]\('); er = core.find_symbols(FAM, um + r'erase\([^)]* const&\)')
     if not ix or len(er) != 1: raise core.BuildError('Thread_Storage no longer keeps its state in a std::unordered_map: C14 harness does not apply')
     d['UMAP_INDEX'] = 'F_' + core.cname(ix[0][0]); d['UMAP_ERASE'] = 'F_' + core.cname(er[0][0])
     if len(ix) > 1: d['UMAP_INDEX2'] = 'F_' + core.cname(ix[1][0])
     return [Harness('K.Thread_Storage', FAM, [TS], 'c14_storage.c', stubs=[r'std::unordered_map<.*>::(operator\[\]|erase)'], cuts=[r'std::unordered_map<.*>::(unordered_map|~unordered_map)'],
-                    shapes=[dict(d, WHICH=w, _tag='create-use(%s)-destroy-create at one address' % n, _witness=('witness: history explored',)) for w, n in enumerate(['operator*', 'operator->', 'operator* const', 'operator-> const'])], opts=['--unwind', '4'], timeout=120, mem_gb=4,
+                    shapes=[dict(d, WHICH=w, _tag='create-use(%s)-destroy-create at one address' % n, _witness=('witness: history explored',)) for w, n in enumerate(['operator*', 'operator->', 'operator* const', 'operator-> const'])] + ([dict(d, WHICH=0, TWO_THREADS=1, _tag='two engines constructed on two threads, used from one', _witness=('witness: two threads explored',))] if 'TS_CTOR' in d else []), opts=['--unwind', '4'], timeout=120, mem_gb=4,
                     inputs=['c0', 'between', 'which'], note='counter start and number of constructions in between: symbolic; second object at the address of the first')]
 
 ASSUMPTIONS = ['the per-thread std::unordered_map is a recorder: that two different keys do not alias is libstdc++\'s business', 'the key counter does not wrap (2^64 constructions)',
-               'thread identity does not appear: with process-unique keys the argument does not depend on which thread holds a stale entry']
+               'threads are modelled as two copies of every thread_local object with the harness switching between them between calls (no interleaving inside a call)']
 OUTSIDE = ['other process-wide mutable state: the only statics in the headers are this counter, the thread_local maps and immutable const boxes (IR scan to be added)']
